@@ -128,7 +128,29 @@ def rule_b(ctx, ix, reg):
     stamped_val_ok = unparse(stamps[0].value) == 'version'
     un = ix.cls(STATE + '.GlueUnSerializer')
     g = un.resolve_func('_dispatch')
-    gets = [c for c in calls_in(g.node) if call_name(c) == 'get' and c.args and isinstance(c.args[0], ast.Constant)
+    # the dispatch and the helpers of the class it hands the record to (one level)
+    parts = [g]
+    for c in calls_in(g.node, nested=True):
+        if isinstance(c.func, ast.Attribute) and unparse(c.func.value) == g.self_name and any(unparse(a) == g.params[1] for a in c.args):
+            h = un.resolve_func(c.func.attr)
+            if h is not None and h not in parts:
+                parts.append(h)
+
+    class _Parts(object):
+        node = ast.Module(body=[p_.node for p_ in parts], type_ignores=[])
+    # a memo in front of the dispatch: what it hands back must be keyed by the record's version as well as by its type
+    for p_ in parts:
+        for sub in ast.walk(p_.node):
+            if isinstance(sub, ast.Subscript) and isinstance(sub.ctx, ast.Load) and isinstance(sub.value, ast.Attribute) and \
+                    unparse(sub.value.value) in (p_.self_name, 'cls', un.name) and sub.value.attr not in ('dispatch',) and \
+                    "['_type']" in unparse(sub.slice).replace('"', "'"):
+                keyed = '_protocol' in unparse(sub.slice) or 'version' in unparse(sub.slice)
+                ctx.ob(R, '%s `%s`' % (p_.construct, norm(sub)), 'a loader looked up in a memo is keyed by (type, protocol version)', keyed,
+                       detail='%s looks the loader up in `%s`, keyed by the record type only: after a record of one protocol version was '
+                              'loaded, every record of that type - whatever version it was written in - is read by that version\'s '
+                              'loader (an old session opened after a new one loses or mis-reads fields)' % (p_.construct, norm(sub)),
+                       where=where(p_, sub))
+    gets = [c for p_ in parts for c in calls_in(p_.node) if call_name(c) == 'get' and c.args and isinstance(c.args[0], ast.Constant)
             and c.args[0].value == '_protocol']
     if len(gets) != 1:
         raise AnalysisError('GlueUnSerializer._dispatch: expected one rec.get("_protocol", default)')
@@ -140,7 +162,7 @@ def rule_b(ctx, ix, reg):
            detail='records without _protocol are read as version %r while the writer omits the stamp for versions <= %r'
                   % (dflt, thr), where=g.where)
     # the loader is fetched for exactly that version
-    vers = [c for c in calls_in(g.node) if call_name(c) == 'get_version']
+    vers = [c for p_ in parts for c in calls_in(p_.node) if call_name(c) == 'get_version']
     ok = bool(vers) and all(len(c.args) >= 2 and unparse(c.args[1]) == 'version' for c in vers)
     ctx.ob(R, g.construct, 'the loader of the record\'s own version is used', ok,
            detail='GlueUnSerializer._dispatch does not fetch the loader with get_version(type, version)', where=g.where)
